@@ -186,6 +186,7 @@ fn run_case(c: &SpawnCase, root: &std::path::Path, rep: &mut CaseReport) -> Resu
     let cwd_bytes = if c.cwd == 1 { root.join("cwd").as_os_str().as_bytes().to_vec() } else { root.join("missing-dir").as_os_str().as_bytes().to_vec() };
     let cwd = us(&cwd_bytes);
 
+    let extra_arg = us(b"added-after-the-failed-spawn");
     let mut cmd = Command::new(&bin).map_err(|e| Failure::new("Command::new|error", format!("{e}")))?;
     for a in &arg_strings {
         let r: &UnixStr = a;
@@ -427,8 +428,14 @@ fn run_case(c: &SpawnCase, root: &std::path::Path, rep: &mut CaseReport) -> Resu
         }
     }
 
+    // what the child must see / which step must fail: cells, because a Command that failed to
+    // spawn is changed and spawned again further down
+    let argv_cell = std::cell::RefCell::new(argv_model.clone());
+    let expect_cell = std::cell::RefCell::new(expect_err.clone());
     let mut judge = |result: Result<tiny_std::process::Child, tiny_std::Error>, rep: &mut CaseReport| -> Result<(), Failure> {
-        match (result, &expect_err) {
+        let argv_model = argv_cell.borrow().clone();
+        let expect_now = expect_cell.borrow().clone();
+        match (result, &expect_now) {
             (Ok(mut child), None) => {
                 // interact with pipes first so the helper can finish
                 if c.stdio[0] == 3 {
@@ -617,6 +624,29 @@ fn run_case(c: &SpawnCase, root: &std::path::Path, rep: &mut CaseReport) -> Resu
             Err(f) => Err(f),
         };
         rep.class("command-reused");
+    }
+    // ... and a Command whose spawn FAILED (at a step that was made to fail once) can be
+    // completed and spawned again: the child then sees every argument, old and new
+    let plan_fault = matches!(c.fault, Fault::Pipe2(..) | Fault::OpenNull(..) | Fault::Fork(..) | Fault::Dup(..) | Fault::Chdir(..) | Fault::Setuid(..) | Fault::Setgid(..) | Fault::Setpgid(..) | Fault::Execve(..));
+    let persistent = c.prog != 0 || c.cwd == 2 || c.closures.iter().any(|&x| x != 0);
+    if outcome.is_ok() && !first_ok && expect_err.is_some() && plan_fault && !persistent && !read_fault && !c.stdio.contains(&4) && !any_closed {
+        let _ = std::fs::remove_file(&dump_path);
+        let r: &UnixStr = &extra_arg;
+        cmd.arg(r);
+        argv_cell.borrow_mut().push(b"added-after-the-failed-spawn".to_vec());
+        *expect_cell.borrow_mut() = None;
+        let again = no_panic("Command::spawn (after a failed spawn, one argument added)", || cmd.spawn());
+        if unsafe { libc::getpid() } != parent_pid {
+            unsafe {
+                libc::write(mp[1], b"X".as_ptr().cast(), 1);
+                libc::_exit(0);
+            }
+        }
+        outcome = match again {
+            Ok(r) => judge(r, rep).map_err(|f| Failure::new(format!("{} (spawn after a failed spawn, one argument added)", f.sig), f.what)),
+            Err(f) => Err(f),
+        };
+        rep.class("command-reused-after-failed-spawn");
     }
 
     // restore the caller's own standard descriptors (the Child value and its pipes are gone by now)
